@@ -170,8 +170,21 @@ def _pair_pattern(ctx, f, call: ast.Call):
         return isinstance(e, ast.Subscript) and isinstance(e.value, ast.Attribute) and e.value.attr in ("genomes", "fitnesses")
 
     def _reduction(e):
-        return isinstance(e, ast.Call) and norm(e.func).split(".")[-1] in ("min", "max", "amin", "amax", "sort", "mean", "median", "sum", "nanmin", "nanmax")
+        return isinstance(e, ast.Call) and norm(e.func).split(".")[-1] in ("min", "max", "amin", "amax", "sort", "mean", "median", "sum", "nanmin", "nanmax", "minimum", "maximum", "fmin", "fmax")
 
+    def _where_rows(e, attr):
+        """np.where(mask, A.<attr>, B.<attr>): row-wise choice between two populations' arrays -> (mask text, A, B)"""
+        if isinstance(e, ast.Call) and norm(e.func) in ("np.where", "numpy.where") and len(e.args) == 3 and all(isinstance(x, ast.Attribute) and x.attr == attr for x in e.args[1:]):
+            return canon(e.args[0]), canon(e.args[1].value), canon(e.args[2].value)
+        return None
+
+    wg, wf = _where_rows(g0, "genomes"), _where_rows(f0, "fitnesses")
+    if wg and wf:
+        if (wg[1], wg[2]) == (wf[1], wf[2]) and (wg[0] == wf[0] or wg[0].replace("[:,None]", "").replace("[:,np.newaxis]", "") == wf[0]):
+            return True, "genomes and fitnesses chosen row by row from the same two populations under the same mask"
+        return False, f"genomes are chosen with `{wg[0][:50]}` between ({wg[1]}, {wg[2]}) but fitnesses with `{wf[0][:50]}` between ({wf[1]}, {wf[2]})"
+    if wg and _reduction(f0):
+        return False, f"each row's genome is chosen between `{wg[1]}` and `{wg[2]}` by a mask, but its fitness is `{norm(f0)[:60]}`, the element-wise extreme of both: whenever the mask keeps the row with the other value the stored fitness is not the fitness of the stored genome"
     if (_rows(g0) and _reduction(f0)) or (_rows(f0) and _reduction(g0)):
         return False, f"genomes `{norm(Gr)[:50]}` are rows selected by an index, but the fitnesses `{norm(Fr)[:50]}` are a reduction computed elsewhere: a row no longer carries its own objective value"
     return None, f"genomes `{norm(Gr)[:60]}` and fitnesses `{norm(Fr)[:60]}` are not recognisably co-derived"
@@ -588,6 +601,55 @@ def r02_4(ctx: Ctx):
                     rebinds.append(n)
         ok = not early and not rebinds
         obs.append(ctx.ob("R02.4", m, evals[0], status=OK if ok else VIOLATION, detail=f"{cname}: `{tv}` is evaluated before its fitness is read and not rebound afterwards" if ok else f"{cname}: the trial population's fitness is read before evaluate() or the evaluated population is replaced afterwards", construct=f"{cname}:evaluate"))
+        # what evaluate() finds: Population.evaluate only evaluates rows whose fitness is NaN, so on every path the last operator
+        # applied to the trial population must have reset the fitness of every changed row (typestate over the CFG of run)
+        if ev_nodes:
+            kinds = {}
+
+            def op_kind(call):
+                cs = next((c_ for c_ in ctx.res.callsites(m) if c_.node is call), None)
+                if cs is None or not cs.targets:
+                    return "?"
+                ks = set()
+                for tg in cs.targets:
+                    if tg.qualname not in kinds:
+                        k = "?"
+                        ctors = [c_ for c_ in body_walk(tg.node) if isinstance(c_, ast.Call) and _is_population_ctor(ctx, tg, c_)]
+                        rets = [r for r in body_walk(tg.node) if isinstance(r, ast.Return)]
+                        if len(ctors) == 1 and len(rets) == 1 and rets[0].value is ctors[0] and len(ctors[0].args) >= 2:
+                            okp, _ = _pair_pattern(ctx, tg, ctors[0])
+                            G, F = ctors[0].args[0], ctors[0].args[1]
+                            Gr = _last_def_before(tg, G.id, ctors[0]) if isinstance(G, ast.Name) else G
+                            Fr = _last_def_before(tg, F.id, ctors[0]) if isinstance(F, ast.Name) else F
+                            Gr, Fr = Gr if Gr is not None else G, Fr if Fr is not None else F
+                            if okp is True and isinstance(Fr, ast.Call):
+                                k = "fresh"
+                            elif okp is None and isinstance(Fr, ast.Attribute) and Fr.attr == "fitnesses" and isinstance(Fr.value, ast.Name) and Fr.value.id in tg.params() and not (isinstance(Gr, ast.Attribute) and Gr.attr == "genomes") and isinstance(Gr, (ast.Call, ast.BinOp)):
+                                k = "stale"  # computed genomes handed on with the input's fitness column
+                        kinds[tg.qualname] = k
+                    ks.add(kinds[tg.qualname])
+                return "stale" if "stale" in ks else "fresh" if ks == {"fresh"} else "?"
+
+            def node_fn2(n, st):
+                a = n.ast
+                if n.kind == "stmt" and isinstance(a, ast.Assign) and len(a.targets) == 1 and isinstance(a.targets[0], ast.Name) and a.targets[0].id == tv:
+                    if isinstance(a.value, ast.Call) and isinstance(a.value.func, ast.Attribute) and is_self_attr(a.value.func, None, m.self_name()):
+                        k = op_kind(a.value)
+                        return [(k, a) if k == "stale" else (k, None)]
+                    if isinstance(a.value, ast.Call) and isinstance(a.value.func, ast.Attribute) and a.value.func.attr == "copy":
+                        return [("clean", None)]
+                    return [("?", None)]
+                if n is ev_nodes[0]:
+                    return [("at-eval:" + st[0], st[1])]
+                return [st]
+
+            at2, _ex2, _par2 = typestate(cfg, [("clean", None)], node_fn2)
+            reach = at2.get(ev_nodes[0].id, set()) if isinstance(at2, dict) else set()
+            stale = [x for x in reach if x[0] == "stale"]
+            if stale:
+                obs.append(ctx.ob("R02.4", m, stale[0][1], status=VIOLATION, detail=f"{cname}: on some path `{tv}` reaches evaluate() straight from `{norm(stale[0][1])[:70]}`, an operator that hands on its input's fitness column with newly computed genomes: evaluate() only evaluates NaN rows, so these rows are never evaluated and compete with their parents' values", construct=f"{cname}:stale-at-evaluate"))
+            elif reach and all(x[0] in ("fresh", "clean") for x in reach):
+                obs.append(ctx.ob("R02.4", m, evals[0], detail=f"{cname}: on every path the operator applied last before evaluate() resets the fitness of every changed row", construct=f"{cname}:fresh-at-evaluate"))
     return obs
 
 
@@ -888,6 +950,78 @@ def r02_10(ctx: Ctx):
     return obs
 
 
+def shared_module_state(ctx: Ctx, rule: str, attrs: tuple | None = None):
+    """A module-level mutable container that an instance keeps BY REFERENCE (`self.options = DEFAULT_OPTIONS`, or a parameter
+    whose default is that global) and that pyhms then writes through the instance: the write lands in the module-level object,
+    i.e. in every other instance that fell back to the default, now and later in the process.
+    -> obligations; `attrs` restricts to the named instance attributes."""
+    obs = []
+    MUT = {"append", "extend", "insert", "update", "setdefault", "add", "pop", "popitem", "clear", "remove"}
+    n = 0
+    for ci in ctx.prog.classes.values():
+        init = ci.methods.get("__init__")
+        if init is None:
+            continue
+        isn = init.self_name()
+        glob = ci.module.globals_
+
+        def mutable_global(name):
+            st = glob.get(name)
+            v = getattr(st, "value", None)
+            return v is not None and (isinstance(v, (ast.Dict, ast.List, ast.Set)) or (isinstance(v, ast.Call) and norm(v.func) in ("dict", "list", "set", "defaultdict")))
+
+        a = init.node.args
+        pos = a.posonlyargs + a.args
+        dmap = dict(zip([x.arg for x in pos][len(pos) - len(a.defaults):], a.defaults)) if a.defaults else {}
+        dmap.update({k.arg: d for k, d in zip(a.kwonlyargs, a.kw_defaults) if d is not None})
+        aliased = {}
+        for y in body_walk(init.node):
+            if isinstance(y, (ast.Assign, ast.AnnAssign)) and getattr(y, "value", None) is not None and isinstance(y.value, ast.Name):
+                g = None
+                if mutable_global(y.value.id) and y.value.id not in init.params():
+                    g = y.value.id
+                elif y.value.id in dmap and isinstance(dmap[y.value.id], ast.Name) and mutable_global(dmap[y.value.id].id):
+                    g = dmap[y.value.id].id
+                if g is not None:
+                    for t in (y.targets if isinstance(y, ast.Assign) else [y.target]):
+                        if is_self_attr(t, None, isn) and (attrs is None or t.attr in attrs):
+                            aliased[t.attr] = (g, y)
+        if not aliased:
+            continue
+        n += 1
+        writes = {}
+        for f in ctx.prog.all_functions():
+            if f.name == "<module>":
+                continue
+            for x in body_walk(f.node):
+                tgt = None
+                if isinstance(x, ast.Call) and isinstance(x.func, ast.Attribute) and x.func.attr in MUT:
+                    tgt = x.func.value
+                elif isinstance(x, (ast.Assign, ast.AugAssign, ast.Delete)):
+                    for t in (x.targets if isinstance(x, (ast.Assign, ast.Delete)) else [x.target]):
+                        if isinstance(t, ast.Subscript):
+                            tgt = t.value
+                        elif isinstance(x, ast.AugAssign) and isinstance(t, ast.Attribute):
+                            tgt = t
+                if not (isinstance(tgt, ast.Attribute) and tgt.attr in aliased):
+                    continue
+                own = f.cls is ci and is_self_attr(tgt, None, f.self_name())
+                typed = False
+                if not own:
+                    t_ = ctx.res.type_of(tgt.value, f)
+                    ms = [t_] if t_ is not None and t_[0] != "union" else list(t_[1]) if t_ is not None else []
+                    typed = any(m_[0] == "inst" and m_[1] == ci.qualname for m_ in ms)
+                if own or typed:
+                    writes.setdefault(tgt.attr, (f, x))
+        for attr, (g, y) in aliased.items():
+            if attr in writes:
+                f, x = writes[attr]
+                obs.append(ctx.ob(rule, f, x, status=VIOLATION, detail=f"{ci.name}.{attr} can be the module-level `{g}` itself (kept by reference: `{norm(y)[:60]}`) and {f.short} writes into it (`{norm(x)[:60]}`): the write changes `{g}` for every other {ci.name} that relies on the defaults, in this and in every later run of the process", construct=f"{ci.name}.{attr}:aliased-global"))
+            else:
+                obs.append(ctx.ob(rule, init, y, detail=f"{ci.name}.{attr} may alias the module-level `{g}`, and nothing in pyhms writes into it", construct=f"{ci.name}.{attr}:aliased-global"))
+    return obs
+
+
 def r02_11(ctx: Ctx):
     """R02.11 no evaluation result is kept in state shared between instances: a mutable container defined in a class body and mutated through `self` is one object for all instances (e.g. a fitness cache shared by different objectives)."""
     obs = []
@@ -926,6 +1060,43 @@ def r02_11(ctx: Ctx):
                     init_rebinds = init is not None and hit in {t.attr for y in body_walk(init.node) if isinstance(y, (ast.Assign, ast.AnnAssign)) for t in (y.targets if isinstance(y, ast.Assign) else [y.target]) if is_self_attr(t, None, init.self_name())}
                     if not init_rebinds:
                         obs.append(ctx.ob("R02.11", m, x, status=VIOLATION, detail=f"{ci.name}.{hit} is a mutable container defined in the class body and written by {m.short} through `self`: one object shared by every instance (values stored for one problem are handed out for another)", construct=f"{ci.name}.{hit}"))
+        # the other classic way to share one container between instances: a mutable DEFAULT ARGUMENT of the constructor that
+        # is kept on the instance (`def __init__(self, cache={}): self._cache = cache`) and then written
+        pass
+    for ci in ctx.prog.classes.values():
+        if not ci.module.name.startswith(("pyhms.core", "pyhms.utils.cache", "pyhms.demes", "pyhms.sprout", "pyhms.stop_conditions")):
+            continue
+        init = ci.methods.get("__init__")
+        if init is None:
+            continue
+        a = init.node.args
+        pos = a.posonlyargs + a.args
+        dmap = dict(zip([x.arg for x in pos][len(pos) - len(a.defaults):], a.defaults)) if a.defaults else {}
+        dmap.update({k.arg: d for k, d in zip(a.kwonlyargs, a.kw_defaults) if d is not None})
+        mut_params = {p_ for p_, d in dmap.items() if isinstance(d, (ast.Dict, ast.List, ast.Set)) or (isinstance(d, ast.Call) and norm(d.func) in ("dict", "list", "set", "defaultdict"))}
+        if not mut_params:
+            continue
+        isn = init.self_name()
+        kept = {}
+        for y in body_walk(init.node):
+            if isinstance(y, (ast.Assign, ast.AnnAssign)) and getattr(y, "value", None) is not None and isinstance(y.value, ast.Name) and y.value.id in mut_params:
+                for t in (y.targets if isinstance(y, ast.Assign) else [y.target]):
+                    if is_self_attr(t, None, isn):
+                        kept[t.attr] = y
+        for m in ci.methods.values():
+            sn = m.self_name()
+            if sn is None:
+                continue
+            for x in body_walk(m.node):
+                hit = None
+                if isinstance(x, ast.Call) and isinstance(x.func, ast.Attribute) and x.func.attr in MUT and is_self_attr(x.func.value, None, sn) and x.func.value.attr in kept:
+                    hit = x.func.value.attr
+                if isinstance(x, (ast.Assign, ast.AugAssign)):
+                    for t in (x.targets if isinstance(x, ast.Assign) else [x.target]):
+                        if isinstance(t, ast.Subscript) and is_self_attr(t.value, None, sn) and t.value.attr in kept:
+                            hit = t.value.attr
+                if hit is not None:
+                    obs.append(ctx.ob("R02.11", m, x, status=VIOLATION, detail=f"{ci.name}.{hit} is the constructor's mutable default argument (`{norm(kept[hit])}`), one object for every instance built without that argument, and {m.short} writes to it: values stored for one problem are handed out for another", construct=f"{ci.name}.{hit}:default-arg"))
     if n < 40:
         raise AnalysisError(f"only {n} classes scanned for shared mutable class state")
     if not obs:
@@ -948,6 +1119,19 @@ def r02_12(ctx: Ctx):
                 if fit is None:
                     continue
                 ft = canon(fit, defs)
+                # a value taken from an external minimiser's bookkeeping (cma result.fbest, scipy result.fun) is the value the
+                # minimiser was told - the sign-adapted objective - not the objective value itself
+                ext = [x for x in ast.walk(fit) if isinstance(x, ast.Attribute) and x.attr in ("fbest", "fun", "f_best", "best_f")]
+                if not ext and isinstance(fit, ast.Name):
+                    ext = [x for d in defs.get(fit.id, []) for x in ast.walk(d) if isinstance(x, ast.Attribute) and x.attr in ("fbest", "fun", "f_best", "best_f")]
+                if ext:
+                    from . import c13
+
+                    kinds = c13.Kinds(ctx, f)
+                    signs = c13._sign_names(ctx, f)
+                    adapted = c13._is_sign_adapted(fit, signs, kinds)
+                    obs.append(ctx.ob("R02.12", f, c, status=OK if adapted else VIOLATION, detail=f"{ci.name}: fitness taken from the minimiser's bookkeeping and turned back into the objective's own sign" if adapted else f"{ci.name}: `{norm(c)[:90]}` stores `{norm(fit)}`, the value an external minimiser was told (the sign-adapted objective), as the individual's fitness: on a maximisation problem that is -f(genome)", construct=f"{ci.name}:minimiser-value"))
+                    continue
                 if ft.endswith(("sprout_seed.fitness", "_sprout_seed.fitness")) or (".sprout_seed" in ft and ft.endswith(".fitness")):
                     obs.append(ctx.ob("R02.12", f, c, status=VIOLATION, detail=f"{ci.name}: `{norm(c)[:80]}` attaches the sprout seed's fitness — computed by the parent level's problem — to an individual of this deme's own problem: with different objectives per level the stored value is not the objective value of the genome", construct=f"{ci.name}:seed-fitness"))
     if n < 8:
